@@ -99,7 +99,9 @@ class Agent(Part):
                     kinds = base[i]
                     if rng.random() < 0.15:      # same id, other kinds (and maybe another host)
                         kinds = sorted(rng.sample(range(NK), rng.randint(0, NK)))
-                    host = i if rng.random() < 0.9 else i + 10
+                    r = rng.random()
+                    # mostly the member's own address; sometimes another one; sometimes an address shared with other ids
+                    host = i if r < 0.7 else (i + 10 if r < 0.8 else 20 + i % 2)
                     snap.append(mem(i, kinds, host))
                     if rng.random() < 0.2:       # duplicate entry: identical, or with other kinds
                         dk = kinds if rng.random() < 0.5 else sorted(rng.sample(range(NK), rng.randint(0, NK)))
